@@ -98,6 +98,8 @@ structure St where
   dead : Bool := false
   /-- `some` while a system-level case (header kind `sys`) is being judged by `Driver.C13Sys` -/
   sys : Option Driver.C13Sys.St := none
+  /-- `some` in an `evq` case: the numbering of the event queue (`Subs.EvQ`) -/
+  evq : Option EvQ := none
 
 def pathEntry (u : Nat × Nat × Nat) : Entry := { ep := u.1, cl := u.2.1, attr := u.2.2, id := 0 }
 
@@ -408,6 +410,7 @@ def step (st : St) (line : String) : St × String :=
   let (op, out) := splitArrow line
   match words op with
   | "case" :: _ :: "sys" :: hdr => ({ sys := some (Driver.C13Sys.initSt hdr) }, "case")
+  | "case" :: _ :: "evq" :: _ => ({ evq := some EvQ.new }, "case")
   | "case" :: _ :: _ :: ns :: hzs :: _ =>
     match ns.toNat?, hzs.toNat? with
     | some n, some hz => ({ m := State.new hz n }, "case")
@@ -416,6 +419,22 @@ def step (st : St) (line : String) : St × String :=
     if let some s := st.sys then
       let (s', v) := Driver.C13Sys.step s ws out
       ({ st with sys := some s' }, v)
+    else
+    if let some q := st.evq then
+      -- the event queue's numbering: model = `EvQ.push` / `EvQ.watermark`; oracle: the numbers `push`
+      -- hands out are consecutive and the watermark is the last one handed out
+      match ws with
+      | ["push", ks] =>
+        let k := (ks.toNat?).getD 1
+        let (q', nums) := (List.range k).foldl (fun (acc : EvQ × List Nat) _ =>
+          let r := acc.1.push
+          (r.2, acc.2 ++ [r.1])) (q, [])
+        let m := s!"{nums.head?.getD 0}-{nums.getLast?.getD 0} {q'.next}"
+        if m = out then ({ st with evq := some q' }, "ok") else ({ st with evq := some q' }, s!"DIS {m}")
+      | ["wm"] =>
+        let m := toString q.watermark
+        if m = out then (st, "ok") else (st, s!"DIS {m}")
+      | _ => (st, "BAD evq op")
     else
     if st.dead then (st, "ok") else
     if (words out).head? = some "panic" then ({ st with dead := true }, "ORA the implementation panicked") else
